@@ -1227,6 +1227,32 @@ impl St {
                     r
                 }))
             }
+            // `link_to_gone F C KEY T`: link while the process' working directory no longer exists (the caller sat in a
+            // directory that has been removed); cache and target are handed over as absolute paths, so nothing about
+            // the call depends on the working directory.  Back in the scratch directory afterwards.
+            "link_to_gone" => {
+                need(a, 4)?;
+                let fl = parse_fl(a[0])?;
+                let c = parse_cache(a[1])?;
+                let key = parse_utf8(a[2])?;
+                let target = parse_target(a[3])?.resolve(&self.scratch);
+                let scratch = self.scratch.clone();
+                let cabs = format!("{scratch}/{c}");
+                Ok(clocked(&c, &key, || {
+                    let gone = format!("{scratch}/gone-cwd");
+                    if std::fs::create_dir_all(&gone).is_err() || std::env::set_current_dir(&gone).is_err() {
+                        return "err io notfound".to_string();
+                    }
+                    let _ = std::fs::remove_dir(&gone);
+                    let r = guard(|| {
+                        res_sri(flav!(fl,
+                            cacache::link_to_sync(&cabs, &key, &target);
+                            cacache::link_to(&cabs, &key, &target).await))
+                    });
+                    let _ = std::env::set_current_dir(&scratch);
+                    r
+                }))
+            }
             "link_to_hash" => {
                 need(a, 3)?;
                 let fl = parse_fl(a[0])?;
